@@ -221,9 +221,12 @@ def sdesc_place(B, p, depth=0):
     s = sdesc_local(B, p['l'], depth)
     for e in p['p']:
         if e['k'] == 'field':
-            if 'closure' in e and e['i'] in B.upvar_names:
-                un = B.upvar_names[e['i']]
-                s = 'upvar' + (un[un.index('.'):] if '.' in un else '<%s>' % _short_ty(e.get('ty', '')))
+            if 'closure' in e and (PHI or e['i'] in B.upvar_names):
+                un = B.upvar_names.get(e['i'], '')
+                if PHI:
+                    s = 'upvar#%d' % e['i'] + (un[un.index('.'):] if '.' in un else '')          # position of the capture (the skeleton substitutes the captured operand)
+                else:
+                    s = 'upvar' + (un[un.index('.'):] if '.' in un else '<%s>' % _short_ty(e.get('ty', '')))
             else:
                 picked = _tuple_field(s, e['i']) if PHI else None
                 s = picked if picked is not None else '%s.%s' % (s, e.get('name', e['i']))
